@@ -30,6 +30,9 @@ type fakeStream struct {
 	in   []*gnmi.SubscribeRequest
 	sent []interface{}
 	wait bool // Recv blocks until the context is done once the queue is empty (instead of EOF)
+	// beforeRecv, when set, is called with the number of messages already handed out, before the next one is
+	recvd      int
+	beforeRecv func(n int)
 }
 
 func (s *fakeStream) Context() context.Context     { return s.ctx }
@@ -45,6 +48,10 @@ func (s *fakeStream) record(m interface{}) error {
 	return nil
 }
 func (s *fakeStream) Recv() (*gnmi.SubscribeRequest, error) {
+	if s.beforeRecv != nil {
+		s.beforeRecv(s.recvd)
+	}
+	s.recvd++
 	s.mu.Lock()
 	if len(s.in) > 0 {
 		m := s.in[0]
